@@ -26,8 +26,9 @@ def cases(draw, nums, pmax=5, kmax=5):
         kmax = 9  # many spans
     c = draw(gen.curves(0, pmax, kmax, nums=nums, regimes="all"))
     outside = draw(gen.outside_params(c["U"]))
-    seqtype = draw(st.sampled_from(["tuple", "list", "ndarray"]))
-    return {"curve": c, "outside": outside, "seqtype": seqtype,
+    seqtype = draw(st.sampled_from(["tuple", "list", "ndarray", "gen", "iter", "map"]))
+    return {"curve": c, "outside": outside, "seqtype": seqtype, "order": draw(st.sampled_from(lib.SEQ_ORDERS)),
+            "via_eval": draw(st.integers(0, 3)) == 0, "history": draw(st.sampled_from(lib.HISTORY_MODES)),
             "intparam": draw(st.booleans()), "twin_first": draw(st.integers(0, 2)) == 0}
 
 
@@ -51,7 +52,13 @@ def check(case, out):
         twin(float(ref.U[0]))
         twin([float(ref.U[0]), float(ref.U[-1])])
         out.cls("float-twin-first")
-    curve = lib.build_curve(c)
+    curve = lib.build_curve_history(c, case.get("history"))
+    if case.get("history"):
+        # object history: constructed with other data, evaluated, then re-assigned through the public setters
+        out.cls("history=" + case["history"])
+        if lib.state_of(curve).key() != ref.key():
+            out.exclude("setter-history-did-not-reach-the-state (C15 territory)")
+            return
     U = ref.U
     bk = oracle.breaks(U)
     interior = bk[1:-1]
@@ -118,25 +125,31 @@ def check(case, out):
             continue
         compare(val, rv, f"u={lp}")
     # (b) one sequence call
-    seq = tuple(lparams) if case["seqtype"] == "tuple" else list(lparams)
+    # (the nodes in any order and in any of the accepted sequence forms, one-shot iterables included)
+    order = case.get("order", "given")
+    sparams, srefs = lib.reorder(lparams, order), lib.reorder(refvals, order)
     if case["seqtype"] == "ndarray":
-        seq = np.array(lparams, dtype=object if exact else "float64")
-    out.cls("seq=" + case["seqtype"])
+        seq = np.array(sparams, dtype=object if exact else "float64")
+    else:
+        seq = lib.seq_form(sparams, case["seqtype"])
+    out.cls("seq=" + case["seqtype"], "order=" + order)
+    sub = f";seq={case['seqtype']}" if case["seqtype"] in ("gen", "iter", "map") else ""
+    sub += ";unsorted" if order != "given" else ""
     try:
-        vals = curve(seq)
+        vals = curve.eval(seq) if case.get("via_eval") else curve(seq)
     except ValueError as exc:
-        out.fail("raises-inside", klass, f"sequence call raised ValueError {exc}")
+        out.fail("raises-inside", klass + sub, f"sequence call ({case['seqtype']}, {order}) raised ValueError {exc}")
         vals = None
     if vals is not None:
         try:
             nvals = len(vals)
         except TypeError:
             nvals = -1
-        if nvals != len(seq):
-            out.fail("shape", klass, f"sequence of {len(seq)} nodes gave {nvals} points")
+        if nvals != len(sparams):
+            out.fail("shape", klass + sub, f"sequence ({case['seqtype']}) of {len(sparams)} nodes gave {nvals} points")
         else:
-            for lp, val, rv in zip(lparams, vals, refvals):
-                compare(val, rv, f"seq u={lp}")
+            for lp, val, rv in zip(sparams, vals, srefs):
+                compare(val, rv, f"seq({case['seqtype']}, {order}) u={lp}")
     # (c) outside
     uo = case["outside"] if exact else lib.conv_param(case["outside"], num)
     for arg, label in ((uo, "alone"), ([lparams[0], uo, lparams[-1]], "in-sequence")):
